@@ -8,7 +8,7 @@ class C10(SCheck):
     level = "exploration"
     default_seed = 10010
     ustep_rate = 0.35
-    N = {"quick": 300, "thorough": 8000}
+    N = {"quick": 600, "thorough": 8000}
     K = {"quick": 2, "thorough": 4}
     technique = "deterministic simulation: seeded schedules (finalisation may run on any worker), snapshot oracle on lstat + xattrs"
     rule = ("case = 1-4 regular files with modes drawn from 0..07777, mtimes (past, future, sub-second), 0-3 user xattrs, uid/gid pairs; flag "
